@@ -177,6 +177,22 @@ def gen_direct(ctx, n, first_id):
     return cases
 
 
+def gen_regrad(ctx, n, first_id):
+    """update_from_grad (initialisation from one gradient) with every kind of gradient entry"""
+    r = ctx.rnd()
+    special = [0.0, -0.0, float("inf"), float("-inf"), float("nan"), 5e-324, 1e-310, 1e-300, 1e300, 1e-21, 1e21, 1e-20, 1e20, -1e-25, 3e25]
+    cases = []
+    for k in range(n):
+        dim = r.choice([1, 2, 3, 5, 8])
+        grad = [r.choice(special) if r.random() < 0.5 else r.choice([-1, 1]) * math.exp(r.uniform(-50, 50)) for _ in range(dim)]
+        pos = [r.uniform(-1e3, 1e3) for _ in range(dim)]
+        cases.append({"id": first_id + k, "dim": dim, "kind": "regrad",
+                      "prev_stds": [str(f2b(math.exp(r.uniform(-3, 3)))) for _ in range(dim)],
+                      "prev_mean": [str(f2b(r.uniform(-5, 5))) for _ in range(dim)],
+                      "regrad": {"pos": [str(f2b(v)) for v in pos], "grad": [str(f2b(v)) for v in grad]}})
+    return cases
+
+
 def zl(bits):
     return coq_list(["%d%%Z" % int(b) for b in bits])
 
@@ -204,8 +220,8 @@ def scales_audit(p):
         v = [b2f(x) for x in p[key]]
         if not all(fin(x) and x > 0 for x in v):
             bad.append("%s = %r" % (key, v))
-    if not all(fin(b2f(x)) for x in p["mean"]):
-        bad.append("mean = %r" % [b2f(x) for x in p["mean"]])
+    # (the translation is not a scale: the property does not speak about it; that update() refuses a
+    # non-finite translation is part of the model tie)
     if p["inner"] is not None:
         for key in ("vals_sqrt", "vals_sqrt_inv"):
             v = [b2f(x) for x in p["inner"][key]]
@@ -323,10 +339,11 @@ def run_part(ctx, quick):
     for k, c0 in enumerate(json.load(open(cp))):
         wc.append(dict(c0, id=len(wc)))
     dc = gen_direct(ctx, 80 if quick else 800, first_id=len(wc))
-    cases = wc + dc
+    gc = gen_regrad(ctx, 60 if quick else 600, first_id=len(wc) + len(dc))
+    cases = wc + dc + gc
     outs, errs = run_harness_parallel("lowrank", cases)
     ctx.oblig("harness-run-lowrank", not errs and len(outs) == len(cases), "\n".join(errs)[:1500])
-    stats = {"windows": len(wc), "direct": len(dc), "kinds": {}, "changed": 0, "kept_previous": 0, "gave_up": 0,
+    stats = {"windows": len(wc), "direct": len(dc), "regrad": len(gc), "kinds": {}, "changed": 0, "kept_previous": 0, "gave_up": 0,
              "nonfinite_rescaled": 0, "oracle_rescale": 0, "oracle_riccati": 0, "oracle_whitening": 0, "filter_pairs": 0,
              "row_ties": 0}
     exprs, meta = [], []
@@ -385,6 +402,13 @@ def run_part(ctx, quick):
                 impl_bad("%s: log-determinant %r, the installed scales give %r" % (c["kind"], got, want), c)
                 continue
         # --- model: guard, gate, install ---
+        if "regrad" in c:
+            if after["inner"] is not None or after["id"] != before["id"] + 1:
+                impl_bad("update_from_grad left a low-rank part in place or did not advance the id", c)
+                continue
+            exprs.append("run_lr_from_grad (%d)%%Z %s %s" % (before["id"], zl(c["regrad"]["pos"]), zl(c["regrad"]["grad"])))
+            meta.append(("regrad", c, o))
+            continue
         if "direct" in c:
             upd, count = c["direct"], 3
         else:
@@ -443,6 +467,11 @@ def run_part(ctx, quick):
                     ir = state_rows(o["after"])
                     if len(ir) != len(rows) or not all(same_bits(a, b_) for a, b_ in zip(ir, rows)):
                         tie_bad("installed parameters: model %s implementation %s" % (rows, ir), c)
+            elif kind == "regrad":
+                o = x
+                ir = [o["after"]["stds"], o["after"]["inv_stds"], o["after"]["mean"]]
+                if int(m[0][1]) != o["after"]["id"] or not all(same_bits(a, b_) for a, b_ in zip(ir, m[1:])):
+                    tie_bad("update_from_grad: model %s implementation %s" % (m[1:], ir), c)
             elif kind == "row":
                 i, dr, gr = x
                 stats["row_ties"] += 1
